@@ -26,6 +26,13 @@ type Ctx struct {
 	normAst  *nctx            // normal-form enumerators per generator package (nform.go)
 	normPkg  map[string]*nctx // by package suffix
 	R        *ob.Report
+	// C13: dereferences of looked-up rules in the left-recursion pass (c13n.go)
+	sccDone    bool
+	sccCovered map[*ast.FuncDecl]bool
+	sccWhy     string
+	// C07-b / C08-e: what ComputeLeftRecursives marks (leftrec_n.go)
+	lrDone     bool
+	lrProblems map[string][]string
 }
 
 func NewCtx(tier string, r *ob.Report) *Ctx {
